@@ -215,7 +215,7 @@ class CExprHarness(Harness):
                 hi = min(hi, MUL_RIGHT_MAX)
             vals[i] = mk.int(f"L{i}", lo, hi)
         lv = [vals[i] for i in sorted(vals)]
-        exp, defined, flags = self.oracle(lv)
+        exp, defined, flags = self.oracle(lv, mk.assume if self.mode == "c27" else None)
         inp = dict(lits=lv, expected=exp, defined=defined)
         for k, v in flags.items():
             inp["F_" + k] = v
@@ -240,10 +240,10 @@ class CExprHarness(Harness):
         """premise of the template on plain integers"""
         return bool(self.oracle(lv)[1])
 
-    def oracle(self, lv):
+    def oracle(self, lv, assume=None):
         """-> (expected observation, defined, flags)"""
         dm, use, dest = self.dm, self.use, self.dest
-        E = csem.Eval(dm, lv)
+        E = csem.Eval(dm, lv, assume)
         v, t = E.ev(self.expr)
         if use in ("global", "static", "array", "field"):
             exp = E.conv(v, dest)                                      # compared through csem.repr_eq
@@ -430,11 +430,12 @@ def quick_templates(march="x86_64"):
     T.append(("global", "long", ["neg", lit(0, "auto")]))
     T.append(("global", "ulong", ["add", lit(0, "auto"), lit(1, "")]))
     T.append(("global", "int", ["shr", lit(0, "auto"), lit(1, "")]))
-    T.append(("global", "long", ["div", lit(0, "auto"), lit(1, "u")]))
     T.append(("case", "long", lit(0, "auto")))
     T = [(u, d, e, march) for u, d, e in T]
     # (6) operator precedence / associativity: depth-2 shapes printed with only the parentheses C needs
-    T += [("global", "int", e, march, "min") for e in precedence_shapes()]
+    rnd = random.Random(27)
+    T += [sp for sp in (("global", "int", e, march, "min") for e in precedence_shapes())
+          if has_defined_point(CExprHarness(*sp), rnd)]
     return T
 
 
@@ -447,15 +448,16 @@ def precedence_shapes():
         for o2 in PREC_OPS:
             out.append([o1, [o2, lit(0), lit(1)], lit(2)])
             out.append([o1, lit(0), [o2, lit(1), lit(2)]])
+    unary = []
     for u in ("neg", "inv", "lnot"):
         for o in PREC_OPS + ["div", "mod"]:
-            out.append([o, [u, lit(0)], lit(1)])
-            out.append([u, [o, lit(0), lit(1)]])
+            unary.append([o, [u, lit(0)], lit(1)])        # - L0 * L1  is  (- L0) * L1
+            unary.append([u, [o, lit(0), lit(1)]])
     out.append(["cond", ["lt", lit(0), lit(1)], lit(2), ["cond", lit(3), lit(4), lit(5)]])
     out.append(["cond", ["cond", lit(0), lit(1), lit(2)], lit(3), lit(4)])
     out.append(["cast", "char", ["add", lit(0), lit(1)]])
     out.append(["add", ["cast", "char", lit(0)], lit(1)])
-    return [e for e in out if tractable(e)]
+    return [e for e in out if tractable(e)] + unary
 
 
 def _rand_leaf(rnd, idx):
